@@ -51,3 +51,17 @@ impl LuaIndex for LuaDependencyIndex {
         self.dependencies.clear();
     }
 }
+
+/// Entry counts of every map of this index (verification hook, add-only, off by default).
+#[cfg(feature = "verif")]
+impl LuaDependencyIndex {
+    pub fn verif_sizes(&self) -> Vec<(String, usize)> {
+        let p = "dependency";
+        let mut v: Vec<(String, usize)> = Vec::new();
+        let mut put = |name: &str, n: usize| v.push((format!("{p}.{name}"), n));
+        put("dependencies", self.dependencies.len());
+        put("dependencies.items", self.dependencies.values().map(|s| s.len()).sum());
+
+        v
+    }
+}
